@@ -405,6 +405,37 @@ FILL_INT = {   # mju_fillInt(res, val, n) (engine_util_misc.c), verified as its 
 }
 
 
+# mj_sleep, PREFIX contract (entry .. exit of the first sweep): the countdown of awake trees.  treeCanSleep with the model's tolerance is named by
+# the ghost array CS (a pure function of the tree for fixed model and data; its exact form with tol == 0 is proved above).
+CANSLEEP_NAMED = {'assumed': True, 'ghost_params': {'CS': 'array'}, 'requires': {}, 'assigns': [], 'pure': True,
+                  'ensures': {'value_named_by_the_ghost': 'result == CS[i]'}}
+from contracts import modeltab as _mt
+MINAWAKE = '(-(1 + %d))' % _mt.int_macros()['mjMINAWAKE']       # read from mjmodel.h on every run
+SLEEP_PREFIX = {
+    'ghost_params': {'CS': 'array'},
+    'params': {'m': {'n': 1}, 'd': {'n': 1, 'ptrfields': {'tree_asleep': {'len': 'm.ntree'}}}},
+    'requires': {'sizes': '0 <= m.ntree and m.ntree < 2**30'},
+    'assigns': ['d.tree_asleep[*]'],
+    'ensures': {'nothing_happens_with_sleep_disabled_or_without_islands': 'forall(lambda t: implies(0 <= t and t < m.ntree, %s[t] == old(%s[t])))' % (TA, TA), 'none_slept': 'result == 0'},
+    'loops': {0: {
+        'invariant': {'range': '0 <= i and i <= ntree and ntree == m.ntree and nslept == 0',
+                      'done': 'forall(lambda t: implies(0 <= t and t < i, %s[t] == (old(%s[t]) if old(%s[t]) >= 0 else ((imin(old(%s[t]) + 1, -1)) if CS[t] != 0 else %s))))' % (TA, TA, TA, TA, MINAWAKE),
+                      'rest': 'forall(lambda t: implies(i <= t and t < m.ntree, %s[t] == old(%s[t])))' % (TA, TA)},
+        'stop_after': {
+            'sleeping_trees_are_left_alone': 'forall(lambda t: implies(0 <= t and t < m.ntree and old(%s[t]) >= 0, %s[t] == old(%s[t])))' % (TA, TA, TA),
+            'an_awake_tree_that_may_sleep_counts_up_to_minus_one': 'forall(lambda t: implies(0 <= t and t < m.ntree and old(%s[t]) < 0 and CS[t] != 0, %s[t] == imin(old(%s[t]) + 1, -1)))' % (TA, TA, TA),
+            'an_awake_tree_that_may_not_sleep_restarts_its_countdown': 'forall(lambda t: implies(0 <= t and t < m.ntree and old(%s[t]) < 0 and CS[t] == 0, %s[t] == %s))' % (TA, TA, MINAWAKE),
+            'no_tree_falls_asleep_in_the_countdown_sweep': 'forall(lambda t: implies(0 <= t and t < m.ntree and old(%s[t]) < 0, %s[t] < 0))' % (TA, TA),
+        }},
+    },
+    'ghost_args': {'treeCanSleep': {'CS': 'CS'}},
+}
+
+
+def sleep_prefix_contracts():
+    return {'__defs__': DEFS, 'mj_sleep': SLEEP_PREFIX, 'treeCanSleep': CANSLEEP_NAMED, 'isSmaller': {'inline': True}, '__effect_free__': ('mju_isTopicEnabled',)}
+
+
 def wake_contracts():
     """contracts for the wake sweeps: the two primitives through their weak views"""
     return {'__defs__': DEFS, 'mj_wakeIsland': WAKE_VIEW, 'mj_sleepCycle': CYCLE_VIEW, 'tendonLimit': TENDON_LIMIT, 'mj_wakeTendon': WAKE_TENDON, 'mj_wakeEquality': WAKE_EQUALITY, 'mj_wakeCollision': WAKE_COLLISION, 'mj_wake': WAKE_USER, 'mju_fillInt': FILL_INT, 'mj_flexBody': {'inline': True, 'pure_inline': True},
